@@ -177,7 +177,8 @@ class World:
         cls = {'CBase': Base, 'CDerived': Derived, 'CForeign': Foreign}
         self.objs = {k: cls[c](k, f'n{n}') for k, (n, c) in OBJ_TABLE.items()}
         self.v = [self.new(), self.new(), self.new()]
-        self.bad = []          # predicate failures: (site, kind, detail)
+        self.bad = []          # predicate failures: (site, kind, history as op list)
+        self.path = []         # operations applied so far
 
     # ------------------------------------------------------------ state
     def snapshot(self):
@@ -203,7 +204,7 @@ class World:
             if k == 'add':
                 r = x.add(self.objs[o[1]])
                 if r is not x:
-                    self.bad.append(('NamedObjectCollection.add', 'does-not-return-self', repr(o)))
+                    self.bad.append(('NamedObjectCollection.add', 'does-not-return-self', self.path + [o]))
                 return 0
             if k == 'pop':
                 return 100 + x.pop().oid
@@ -217,9 +218,9 @@ class World:
                 x0 = x
                 x += other
                 if x is not x0:
-                    self.bad.append(('NamedObjectCollection.__iadd__', 'does-not-return-self', repr(o)))
+                    self.bad.append(('NamedObjectCollection.__iadd__', 'does-not-return-self', self.path + [o]))
                 if before is not None and self._contents(y) != before:
-                    self.bad.append(('NamedObjectCollection.__iadd__', 'modified-right-operand', repr(o)))
+                    self.bad.append(('NamedObjectCollection.__iadd__', 'modified-right-operand', self.path + [o]))
                 return 0
             if k in ('pluso', 'plusy', 'plusx', 'plusseq'):
                 other = (self.objs[o[1]] if k == 'pluso' else y if k == 'plusy' else x if k == 'plusx'
@@ -231,7 +232,7 @@ class World:
                 finally:
                     after = [self._contents(c_) for c_ in self.v]
                     if after != before:
-                        self.bad.append(('NamedObjectCollection.__add__', 'modified-operand', repr(o)))
+                        self.bad.append(('NamedObjectCollection.__add__', 'modified-operand', self.path + [o]))
                 self._check_fresh(c, xobjs, other, o)
                 self.v = [c, x, y]
                 return 50
@@ -252,9 +253,9 @@ class World:
         site = 'NamedObjectCollection.__add__'
         olds = self.v
         if any(c is a for a in olds):
-            self.bad.append((site, 'result-not-fresh', repr(o)))
+            self.bad.append((site, 'result-not-fresh', self.path + [o]))
         if any(c._objects is a._objects or c._obj_name_to_idx is a._obj_name_to_idx for a in olds):
-            self.bad.append((site, 'result-shares-containers', repr(o)))
+            self.bad.append((site, 'result-shares-containers', self.path + [o]))
         if isinstance(other, list):
             added = other
         elif hasattr(other, 'objects'):
@@ -263,9 +264,9 @@ class World:
             added = [other]
         want = xobjs + added
         if len(c.objects) != len(want) or any(a is not b for a, b in zip(c.objects, want)):
-            self.bad.append((site, 'result-wrong-objects', repr(o)))
+            self.bad.append((site, 'result-wrong-objects', self.path + [o]))
         if type(c) is not type(olds[0]):
-            self.bad.append((site, 'result-wrong-class', repr(o)))
+            self.bad.append((site, 'result-wrong-class', self.path + [o]))
 
     # ------------------------------------------------------------ observation
     @staticmethod
@@ -326,11 +327,12 @@ class World:
 
 def explore(w, wide, depth, used, rc, out, path):
     out.append(digest(w.obs_all(rc)))
-    w.check_index(path)
+    w.check_index(list(path))
     if depth == 0:
         return
     for o in alphabet(wide, used):
         snap = w.snapshot()
+        w.path = path
         rc2 = w.apply(o)
         explore(w, wide, depth - 1, used_after(used, o), rc2, out, path + [o])
         w.restore(snap)
@@ -338,7 +340,8 @@ def explore(w, wide, depth, used, rc, out, path):
 
 def run_prefix(w, ops):
     used, rc = 0, 0
-    for o in ops:
+    for i, o in enumerate(ops):
+        w.path = list(ops[:i])
         rc = w.apply(o)
         used = used_after(used, o)
     return used, rc
@@ -360,8 +363,9 @@ def impl_trace(variant, ops):
     w = World(variant)
     out = [w.obs_all(0)]
     for i, o in enumerate(ops):
+        w.path = list(ops[:i])
         rc = w.apply(o)
-        w.check_index(repr(ops[:i + 1]))
+        w.check_index(list(ops[:i + 1]))
         out.append(w.obs_all(rc))
     return out, w.bad
 
@@ -483,6 +487,7 @@ def run_collections(ctx):
             except RuntimeError as ex:
                 ctx.broken.append({'kind': 'model-eval', 'error': str(ex)[:1500]})
     for v in variants:
+        located = 0
         for ji, (w, d, p) in enumerate(jobs):
             dg, n, bad = impl_vals[v][ji]
             ctx.count(f'coll_nodes:{v}:{"wide" if w else "narrow"}', n)
@@ -490,12 +495,17 @@ def run_collections(ctx):
             ctx.case({'coll': v, 'wide': w, 'depth': d, 'prefix': p})
             for site, kind, detail in bad:
                 ctx.violation(site, kind, f'[{v}] after history {detail}',
-                              case={'kind': 'coll', 'variant': v, 'ops_repr': detail},
+                              case={'kind': 'coll', 'variant': v, 'ops': detail},
                               predicate='name->index = enumerate(objects); a + b fresh, operands unchanged')
             if model_vals is not None:
                 ctx.corr_cases += n
                 if (dg, n) != tuple(model_vals[ji]):
-                    localise(ctx, v, w, d, list(p))
+                    if located < 2:        # descend to a single history for the first ones only
+                        located += 1
+                        localise(ctx, v, w, d, list(p))
+                    else:
+                        ctx.disagree(f'collection.{v}', {'kind': 'coll', 'variant': v, 'ops': list(p), 'subtree_depth': d},
+                                     'digest', 'digest', 'subtree digests differ')
     ctx.sample({'collections': {'narrow_depth': nd, 'wide_depth': wd, 'subtrees': len(jobs),
                                 'first_subtree': terms[1] if len(terms) > 1 else terms[0]}})
     # explicit histories: corpus + random, compared observation by observation
@@ -752,11 +762,13 @@ def seqs_upto(vals, n):
 
 
 def bits_and(s, m):
-    return all((s >> b) & 1 for b in range(80) if (m >> b) & 1)
+    """every bit of m is set in s; Python ints are two's complement with an infinite sign extension:
+    bits 0..95 explicitly, all higher bits equal the sign"""
+    return all((s >> b) & 1 for b in range(96) if (m >> b) & 1) and (m >= 0 or s < 0)
 
 
 def bits_or(s, m):
-    return any((s >> b) & 1 for b in range(80) if (m >> b) & 1)
+    return any((s >> b) & 1 for b in range(96) if (m >> b) & 1) or (m < 0 and s < 0)
 
 
 def run_stages(ctx):
@@ -831,10 +843,12 @@ def run_stages(ctx):
         ra, ro = rb(lambda: DFS.and_check(s, a)), rb(lambda: DFS.or_check(s, a))
         impl_big.append((ra, ro))
         ms = [a] if arg[0] == 'int' else a
-        if s >= 0 and all(m >= 0 for m in ms):
-            if ra != int(all(bits_and(s, m) for m in ms)) or ro != int(any(bits_or(s, m) for m in ms)):
-                ctx.violation('DataFieldStages.and_check', 'not-bitwise-all', f'stage {s} arg {a}: {(ra, ro)}',
-                              case={'kind': 'stage', 'stage': s, 'stages': a}, impl=(ra, ro))
+        if ra != int(all(bits_and(s, m) for m in ms)):
+            ctx.violation('DataFieldStages.and_check', 'not-bitwise-all', f'stage {s} arg {a}: {ra}',
+                          case={'kind': 'stage', 'stage': s, 'stages': a}, impl=(ra, ro))
+        if ro != int(any(bits_or(s, m) for m in ms)):
+            ctx.violation('DataFieldStages.or_check', 'not-bitwise-any', f'stage {s} arg {a}: {ro}',
+                          case={'kind': 'stage', 'stage': s, 'stages': a}, impl=(ra, ro))
         g = f'(SInt {zlit(a)})' if arg[0] == 'int' else f'(SSeq {zlist(a)})'
         terms_big.append(f'(resb (and_check {zlit(s)} {g}), resb (or_check {zlit(s)} {g}))')
     # get_joint_names
@@ -1207,6 +1221,31 @@ def run(ctx):
         ctx.notes.append('model did not build: implementation-only predicates were evaluated')
 
 
+def replay_stage(ctx, c):
+    from skyllh.core.datafields import DataFieldStages as DFS
+    s_, a = c['stage'], c['stages']
+    ms = [a] if isinstance(a, int) else list(a)
+    try:
+        got = (int(DFS.and_check(s_, a)), int(DFS.or_check(s_, a)))
+    except Exception as ex:
+        got = (-errcode(ex), -errcode(ex))
+    ctx.case(c)
+    if True:
+        want = (int(all(bits_and(s_, m) for m in ms)), int(any(bits_or(s_, m) for m in ms)))
+        if got[0] != want[0]:
+            ctx.violation('DataFieldStages.and_check', 'not-bitwise-all' if isinstance(a, int) else 'sequence-not-all',
+                          f'and_check({s_}, {a}) = {got[0]}', case=c, impl=got)
+        if got[1] != want[1]:
+            ctx.violation('DataFieldStages.or_check', 'not-bitwise-any' if isinstance(a, int) else 'sequence-not-any',
+                          f'or_check({s_}, {a}) = {got[1]}', case=c, impl=got)
+    if ctx.model_ok:
+        g = f'(SInt {zlit(a)})' if isinstance(a, int) else f'(SSeq {zlist(ms)})'
+        mv = common.coq_eval('c20r', IMPORTS, [f'(resb (and_check {zlit(s_)} {g}), resb (or_check {zlit(s_)} {g}))'])[0]
+        ctx.corr_cases += 1
+        if tuple(mv) != got:
+            ctx.disagree('DataFieldStages', c, got, tuple(mv))
+
+
 def replay(ctx, rp):
     c = rp.get('case') or {}
     kind = c.get('kind')
@@ -1214,5 +1253,13 @@ def replay(ctx, rp):
         ops = [tuple(tuple(x) if isinstance(x, list) else x for x in o) for o in c['ops']]
         compare_histories(ctx, [ops], [c.get('variant', 'noc')])
         return
-    ctx.notes.append('replay: no single-history input in the file; re-running the full check')
+    if kind == 'stage' and 'stage' in c:
+        return replay_stage(ctx, c)
+    if kind in ('hash', 'pdfset'):
+        return run_hash(ctx)
+    if kind == 'joint':
+        return run_stages(ctx)
+    if kind == 'cfg':
+        return run_config(ctx)
+    ctx.notes.append('replay: no single input in the file (broken obligation); re-running the full check')
     run(ctx)
